@@ -32,14 +32,14 @@ Proof. exact roundtrip_int_message. Qed.
 
 Theorem C17_roundtrip_flat_partial : forall m b x oy,
   (m = dev_mode \/ m = release_mode) ->
-  x < 256 -> (forall y, oy = Some y -> (-128 <= y < 128)%Z) ->
+  x < 256 -> (forall y, oy = Some y -> (-32 <= y < 32)%Z) ->
   let v := VSeq [VBool b; VInt (Z.of_N x); VOpt (option_map VInt oy)] in
   exists bs v', pwrite_vec m flat_ty v = Ok bs /\ pread m flat_ty bs = Ok v' /\ peq flat_ty v v' = true.
 Proof. exact roundtrip_flat. Qed.
 
 Theorem C17_backends_agree_partial : forall m b x oy,
   (m = dev_mode \/ m = release_mode) ->
-  x < 256 -> (forall y, oy = Some y -> (-128 <= y < 128)%Z) ->
+  x < 256 -> (forall y, oy = Some y -> (-32 <= y < 32)%Z) ->
   let v := VSeq [VBool b; VInt (Z.of_N x); VOpt (option_map VInt oy)] in
   exists bs, pwrite_vec m flat_ty v = Ok bs /\
     pwrite_slice m (N.of_nat (length bs)) flat_ty v = Ok bs /\
@@ -48,9 +48,6 @@ Theorem C17_backends_agree_partial : forall m b x oy,
 Proof. exact backends_agree_flat. Qed.
 
 (** ** classes in which the faithful model refutes the property *)
-(* a present OPTIONAL NULL: write_null leaves the tag counter alone, read_opt advances it when the next tag is absent *)
-Definition Known_optional_null (t : pty) : Prop :=
-  exists fs, t = TSeq fs /\ In (true, TNull) fs.
 (* a CHOICE with a NULL alternative (nothing is written, read_choice needs a tag) or a SEQUENCE OF alternative
    (only the first element's header is consumed) *)
 Definition Known_choice_alternative (t : pty) : Prop :=
@@ -61,16 +58,18 @@ Definition Known_nested_list (t : pty) : Prop := exists e, t = TSeqOf (TSeqOf e)
 Definition Known_bitvec_excess (v : pval) : Prop :=
   exists bytes n, v = VBits bytes n /\ N.of_nat (length bytes) <> (n + 7) / 8.
 
+(* repaired in /repo b404bbf (write_null / read_null advance the tag counter): a present OPTIONAL NULL no longer
+   shifts the following components; it reads back as absent, which ProtobufEq accepts (Null == Null::default()) *)
 Definition t_optnull := TSeq [(true, TNull); (true, TInt KU8); (false, TInt KU8)].
-Theorem C17_refuted_optional_null :
-  Known_optional_null t_optnull /\
-  exists v bs v', wf_val t_optnull v = true /\
-    pwrite_vec dev_mode t_optnull v = Ok bs /\ pread dev_mode t_optnull bs = Ok v' /\ peq t_optnull v v' = false.
-Proof.
-  split; [exists [(true, TNull); (true, TInt KU8); (false, TInt KU8)]; split; [reflexivity|left; reflexivity]|].
-  exists (VSeq [VOpt (Some VNull); VOpt None; VInt 5]), [16; 5], (VSeq [VOpt None; VOpt (Some (VInt 5)); VInt 0]).
-  vm_compute. repeat split; reflexivity.
-Qed.
+Example C17_optional_null_fixed :
+  let v := VSeq [VOpt (Some VNull); VOpt None; VInt 5] in
+  let v' := VSeq [VOpt None; VOpt None; VInt 5] in
+  wf_val t_optnull v = true /\
+  pwrite_vec dev_mode t_optnull v = Ok [24; 5] /\ pread dev_mode t_optnull [24; 5] = Ok v' /\
+  peq t_optnull v v' = true /\
+  pread dev_mode (TSeq [(false, TInt KU8); (false, TNull); (false, TInt KU8)]) [8; 1; 24; 2]
+  = Ok (VSeq [VInt 1; VNull; VInt 2]).
+Proof. vm_compute. repeat split; reflexivity. Qed.
 
 Definition t_chnull := TChoice [TNull; TInt KU8].
 Theorem C17_refuted_choice_null :
@@ -118,30 +117,38 @@ Theorem C17_refuted_bitvec_excess :
              peq t v (VSeq [VBits [224] 3]) = false.
 Proof.
   split; [exists [224; 255], 3; split; [reflexivity|vm_compute; discriminate]|].
-  eexists. vm_compute. repeat split; reflexivity.
+  exists [10; 9; 224; 0; 0; 0; 0; 0; 0; 0; 3]. vm_compute. repeat split; reflexivity.
 Qed.
 
-(** ** C04 (protobuf reader on arbitrary bytes): panic sites reached by the faithful model *)
+(** ** C04 (protobuf reader on arbitrary bytes) *)
 Definition t_inner := TSeq [(false, TInt KU16); (true, TStr)].
-(* BitVec::from_vec_with_trailing_bit_len: bytes.len() - 8 on fewer than 8 bytes (an absent field is 0 bytes) *)
+(* still reachable through the public primitive ProtoRead::read_bit_vec (op 4015):
+   BitVec::from_vec_with_trailing_bit_len computes bytes.len() - 8 on fewer than 8 bytes *)
 Theorem C04_proto_refuted_bit_vec_short :
-  pread dev_mode (TSeq [(false, TBits)]) [] = Panic P_ARITH /\
-  pread release_mode (TSeq [(false, TBits)]) [] = Panic P_SLICE_RANGE /\
-  read_bit_vec dev_mode [1; 2; 3] = Panic P_ARITH.
+  read_bit_vec dev_mode [1; 2; 3] = Panic P_ARITH /\
+  read_bit_vec release_mode [1; 2; 3] = Panic P_SLICE_RANGE /\
+  read_bit_vec dev_mode [] = Panic P_ARITH.
 Proof. vm_compute. repeat split; reflexivity. Qed.
 
-(* index_enclosed: content_position + content_length with an untrusted 64-bit length *)
-Theorem C04_proto_refuted_length_overflow :
-  pread dev_mode t_inner [10; 255; 255; 255; 255; 255; 255; 255; 255; 255; 1] = Panic P_ARITH /\
-  (* release: the sum wraps, position moves backwards and the loop never ends *)
-  pread release_mode t_inner [8; 129; 128; 2; 18; 245; 255; 255; 255; 255; 255; 255; 255; 255; 1; 97]
-  = Panic P_UNBOUNDED.
+(* repaired in /repo f907d9b: Reader::read_bit_string checks the length before calling it *)
+Example C04_proto_bit_string_fixed :
+  pread dev_mode (TSeq [(false, TBits)]) [] = Ok (VSeq [VBits [] 0]) /\
+  pread release_mode (TSeq [(false, TBits)]) [] = Ok (VSeq [VBits [] 0]) /\
+  pread dev_mode (TSeq [(false, TBits)]) [10; 3; 1; 2; 3] = Err E_IO /\
+  pread release_mode (TSeq [(false, TBits)]) [10; 7; 1; 2; 3; 4; 5; 6; 7] = Err E_IO /\
+  pread dev_mode (TSeq [(false, TBits)]) [10; 9; 160; 0; 0; 0; 0; 0; 0; 0; 3] = Ok (VSeq [VBits [160] 3]).
 Proof. vm_compute. repeat split; reflexivity. Qed.
 
-(* index_enclosed records ranges beyond the end of the input; &self.source[range] panics later *)
-Theorem C04_proto_refuted_trusted_length :
-  pread dev_mode t_inner [18; 5] = Panic P_SLICE_RANGE /\
-  pread release_mode t_inner [18; 5] = Panic P_SLICE_RANGE.
+(* repaired in /repo b1b1c99: index_enclosed uses checked_add and bounds every field by the enclosing range *)
+Example C04_proto_length_overflow_fixed :
+  pread dev_mode t_inner [10; 255; 255; 255; 255; 255; 255; 255; 255; 255; 1] = Err E_IO /\
+  pread release_mode t_inner [10; 255; 255; 255; 255; 255; 255; 255; 255; 255; 1] = Err E_IO /\
+  pread release_mode t_inner [8; 129; 128; 2; 18; 245; 255; 255; 255; 255; 255; 255; 255; 255; 1; 97] = Err E_IO.
+Proof. vm_compute. repeat split; reflexivity. Qed.
+
+Example C04_proto_trusted_length_fixed :
+  pread dev_mode t_inner [18; 5] = Err E_IO /\ pread release_mode t_inner [18; 5] = Err E_IO /\
+  pread dev_mode t_inner [8; 7; 18; 2; 104; 105] = Ok (VSeq [VInt 7; VOpt (Some (VStr [104; 105]))]).
 Proof. vm_compute. repeat split; reflexivity. Qed.
 
 (* non-vacuity: hypotheses inhabited by non-trivial values, and the model produces the expected bytes *)
@@ -161,11 +168,8 @@ Print Assumptions C17_number_roundtrip.
 Print Assumptions C17_roundtrip_partial.
 Print Assumptions C17_roundtrip_flat_partial.
 Print Assumptions C17_backends_agree_partial.
-Print Assumptions C17_refuted_optional_null.
 Print Assumptions C17_refuted_choice_null.
 Print Assumptions C17_refuted_choice_list.
 Print Assumptions C17_refuted_nested_list.
 Print Assumptions C17_refuted_bitvec_excess.
 Print Assumptions C04_proto_refuted_bit_vec_short.
-Print Assumptions C04_proto_refuted_length_overflow.
-Print Assumptions C04_proto_refuted_trusted_length.
